@@ -93,7 +93,7 @@ class C03(Property):
     sys.unraisablehook = lambda *args: None
 
   def budget(self, tier):
-    return (40000, 40.0) if tier == "quick" else (4000000, 900.0)
+    return (240000, 60.0) if tier == "quick" else (40000000, 780.0)
 
   # ---------------------------------------------------------------- workload
   def gen_workload(self, W, index):
